@@ -805,6 +805,9 @@ func (e *Env) evalCall(n *ECall) Val {
 			bits = 16
 		}
 		op := map[byte]string{'x': "^", 'a': "&", 'o': "|"}[n.Fn[0]]
+		if op == "^" {
+			return mathInt(vc.xorUF(a.S, b.S, bits))
+		}
 		return mathInt(bitwiseGeneral(op, a.S, b.S, bits))
 	case "has":
 		m := arg(0)
